@@ -1194,6 +1194,30 @@ class Evaluator:
                 return FALSE if op in ("is", "==") else TRUE
         return t_cmp(op, a, b)
 
+    def _isinstance_known(self, v: Term, k: Term) -> Optional[Term]:
+        """isinstance of a value built right here (a literal, a constructor result) against builtin types / package classes: one answer"""
+        kinds = list(k[1]) if k[0] == "tuple" else [k]
+        if v[0] == "const" and v[1] is not None and not isinstance(v[1], bool):
+            mine = {"str": (str,), "int": (int,), "float": (float,), "bytes": (bytes,)}
+            if all(x[0] == "global" and x[1] in mine for x in kinds):
+                return TRUE if any(isinstance(v[1], mine[x[1]]) for x in kinds) else FALSE
+            if all(x[0] == "cls" for x in kinds):
+                return FALSE
+            return None
+        if v[0] == "new" or (v[0] == "call" and isinstance(v[1], tuple) and v[1][0] == "cls"):
+            c = self.model.maybe_cls(v[1] if v[0] == "new" else v[1][1])
+            if c is None:
+                return None
+            if all(x[0] == "global" and x[1] in ("str", "int", "float", "bytes", "list", "tuple", "dict", "set") for x in kinds) and not is_named_tuple(c):
+                # every base outside the package is one of the plain markers (no builtin container / string among the ancestors)
+                bases_known = all(isinstance(b, ClassInfo) or str(b).split(".")[-1] in ("ABC", "object", "Enum", "Generic", "Protocol", "ABCMeta")
+                                  for k_ in c.mro() for b in k_.bases)
+                return FALSE if bases_known else None
+            if all(x[0] == "cls" for x in kinds):
+                names = {b.name for b in c.mro()}
+                return TRUE if any(x[1] in names for x in kinds) else None
+        return None
+
     def _marker_is_private(self, mark: Term) -> bool:
         """The marker object is only ever handed over as a default and compared: it is never stored, so no table entry is the marker."""
         cache = self.__dict__.setdefault("_marker_cache", {})
@@ -1349,6 +1373,9 @@ class Evaluator:
             tgt = self.model.lookup_symbol(fr.module, n)
             if tgt is None:
                 if n == "isinstance" and len(args) == 2:
+                    decided = self._isinstance_known(args[0], args[1])
+                    if decided is not None:
+                        return decided
                     names = [x[1] for x in (args[1][1] if args[1][0] == "tuple" else [args[1]]) if x[0] == "cls"]
                     if names:
                         return t_or(*[("isinstance", args[0], nm) for nm in names])
